@@ -11,6 +11,36 @@ from checks.texts import TEXTS, NOT_BUILT_REASON, NOT_APPLICABLE   # noqa: E402
 
 PY = '/venv/bin/python'
 
+# fault / placement kinds and clauses added after the first independent evaluation (DESIGN.md 12.5)
+ADDENDA = {
+    'C01': ' Also: ACK/READY frames a worker already sent delivered a second time (message duplication); '
+           'terminate_job() racing the exit of another job\'s worker within one supervision pass; a task that '
+           'returns at the instant the time-limit scanner decides about it.',
+    'C02': ' Also: raises from beyond the recursion limit, empty inputs after non-empty ones (iterator must end).',
+    'C03': ' Also: results whose encoding fails with any of six exception kinds; a task that ended must be followed '
+           'by a result message.',
+    'C04': ' Also: deaths by unnamed (real-time) signals; per-part accounting of imap/imap_unordered with parts '
+           'still running when the loss is reported (each lost part reported once, finished parts delivered).',
+    'C05': ' Also: a nearly-late job next to an overdue one in the same scan, a result racing the scanner\'s '
+           'decision, tasks that catch the soft limit and run into the hard one; no hard-limit action for a job '
+           'that resolved otherwise.',
+    'C06': ' Also: slow user callbacks (scans go by inside them), tasks that keep working after catching the limit; '
+           'signals are attributed to the job the scanner named.',
+    'C07': ' Also: close() placed in the middle of a supervision pass that replaces several workers.',
+    'C08': ' Also: terminate() placed in the middle of a supervision pass (after grow), tasks whose catch-all '
+           'handler swallows or translates the exit request.',
+    'C09': ' Also: the caller of shrink()/grow()/apply_async descheduled for 0.3-2.5 s at its n-th system call or '
+           'between two lines of the method; jobs with unencodable results counted against the quota.',
+    'C12': ' Also: the text must contain the raising source line at every depth.',
+    'C15': ' Also: a child forked while the parent holds the object\'s lock (byte copy of the held lock handle + '
+           'registered after-fork hooks), object created under a context named fork.',
+    'C17': ' Also: timeouts tied to the instant another actor notifies/sets.',
+    'C19': ' Also: zero and negative join timeouts.',
+    'C20': ' Also: second proxies obtained through a registered callable returning the existing object, proxies '
+           're-obtained by name while the last one is released elsewhere, every line of the server\'s '
+           'create/incref/decref a pre-emption point (focus: the window between last decrement and disposal).',
+}
+
 
 def main():
     props = [json.loads(l)['id'] for l in open(os.path.join(VERIF, 'properties.jsonl'))]
@@ -26,7 +56,8 @@ def main():
                 'evidence_file': 'evidence/%s.json' % pid,
                 'replay_cmd_template': '%s bin/check.py %s --replay {path}' % (PY, pid),
                 'engine': 'simos',
-                'level_claimed': {'category': 'exploration', 'text': t['level'], 'design_ref': t['ref']},
+                'level_claimed': {'category': 'exploration', 'text': t['level'] + ADDENDA.get(pid, ''),
+                                  'design_ref': t['ref']},
                 'level_note': t['note'],
                 'technique': t.get('technique', 'deterministic simulation with fault injection: seeded '
                                    'schedule/fault search over real billiard code on a simulated kernel'),
